@@ -9,14 +9,14 @@ from ..runner import new_result, viol, bump, setmax, case_seed
 
 PID = 'C16'
 LEVEL = 'exploration'
-RULE = ('cases: seeded operation histories (insert / replace / non-negative increment incl. 0 / remove / random_removal / select) of 20-400 operations on '
+RULE = ('cases: seeded operation histories (insert / replace / non-negative increment incl. 0 / remove / random_removal / select) of 20-400 (a share: 5000-20000) operations on '
         'up to 200 candidates; weight families: equal, dyadic, non-dyadic, 1e-12..1e12, with zeros; adversarial patterns: repeatedly remove / replace the '
         'heaviest, drain to empty and refill, all-equal weights.  After every block the full selection law is extracted.  Non-trivial = law extracted on '
         '>=2 candidates with distinct weights at least once; distinct = (pattern, weight family, size bucket, mode).')
 ASSUMPTIONS = ['a rejection bound that is stale-high is correct (only slower) and is not flagged; stale-low is']
 BUDGET = {'quick': 150, 'thorough': 1200}
 CHUNK = {'quick': 20, 'thorough': 100}
-REQUIRED = ['dominant_candidate_removals', 'laws_extracted', 'candidates_law_checked', 'totals_checked', 'heaviest_changes', 'zero_weight_candidates_seen', 'real_selections_checked']
+REQUIRED = ['long_history_totals_checked', 'dominant_candidate_removals', 'laws_extracted', 'candidates_law_checked', 'totals_checked', 'heaviest_changes', 'zero_weight_candidates_seen', 'real_selections_checked']
 PATTERNS = ['random', 'heaviest_churn', 'drain_refill', 'equal', 'replace_heavy', 'zero_mix', 'dominant']
 FAMILIES = ['dyadic', 'nondyadic', 'wide', 'equal', 'withzero']
 
@@ -29,6 +29,9 @@ def gen_cases(tier, seed):
         r = random.Random(cs)
         out.append({'pattern': PATTERNS[k % len(PATTERNS)], 'family': r.choice(FAMILIES), 'weighted': (k % 11 != 10), 'size': r.choice([3, 8, 20, 60, 200]),
                     'nops': r.choice([20, 60, 150, 400]), 'seed': cs})
+        if k % 60 == 13:
+            # long histories (one simulation of a few thousand events keeps a single candidate list alive for that long)
+            out[-1].update({'nops': r.choice([5000, 9000, 20000]), 'size': r.choice([8, 20, 60]), 'pattern': r.choice(['random', 'heaviest_churn', 'replace_heavy', 'zero_mix'])})
     return out
 
 
@@ -267,7 +270,9 @@ def run_case(case):
                 if any((x in L) != (x in shadow) for x in universe):
                     viol(res, tag + '|membership', {})
                     return res
-                if sw > 0 or not weighted:
+                if case['nops'] > 1000:
+                    bump(res, 'long_history_totals_checked')
+                if (sw > 0 or not weighted) and (case['nops'] <= 1000 or step % 500 == 499 or step == case['nops'] - 1):
                     h = max(shadow, key=lambda x: shadow[x]) if shadow else None
                     if heaviest_before is not None and h != heaviest_before:
                         bump(res, 'heaviest_changes')
